@@ -272,6 +272,27 @@ def install(ip):
     def _print(ip, args, kw):
         return None
 
+    @reg('builtins.sorted')
+    def _sorted(ip, args, kw):
+        xs = yield from _list(ip, [args[0]], {})
+        if kw.get('key') is not None:
+            raise Unsupported('sorted(key=...)')
+        if any(is_sym(x) or not isinstance(x, (str, int, float, Fraction, tuple)) for x in xs):
+            raise Unsupported('sorted() of symbolic / non-scalar values')
+        try:
+            return sorted(xs, reverse=bool(kw.get('reverse', False)))
+        except TypeError:
+            raise SymRaise('TypeError', 'unorderable')
+
+    @reg('builtins.reversed')
+    def _reversed(ip, args, kw):
+        xs = yield from _list(ip, [args[0]], {})
+        return list(reversed(xs))
+
+    @reg('functools.partial')
+    def _partial(ip, args, kw):
+        return I.SPartial(args[0], list(args[1:]), dict(kw.items()))
+
     @reg('builtins.min')
     def _min(ip, args, kw):
         xs = list(args[0]) if len(args) == 1 else list(args)
@@ -378,6 +399,18 @@ def install(ip):
         return SStr()
 
     # ------------------------------------------------------------------ misc stdlib
+    @reg('warnings.catch_warnings')
+    def _catch_warnings(ip, args, kw):
+        list(kw.items())
+        return I.SCtx()          # warning bookkeeping only: no effect on values
+
+    @reg('warnings.simplefilter')
+    def _simplefilter(ip, args, kw):
+        list(kw.items())
+        return None
+
+    M['warnings.filterwarnings'] = _simplefilter
+
     @reg('warnings.warn')
     def _warn(ip, args, kw):
         return None
